@@ -1187,6 +1187,7 @@ class FiniteStateMachine:
                                                SupvisorsStates.DISTRIBUTION,
                                                SupvisorsStates.SHUTTING_DOWN],
                     SupvisorsStates.DISTRIBUTION: [SupvisorsStates.OFF,
+                                                   SupvisorsStates.SYNCHRONIZATION,
                                                    SupvisorsStates.ELECTION,
                                                    SupvisorsStates.OPERATION,
                                                    SupvisorsStates.RESTARTING,
@@ -1199,6 +1200,7 @@ class FiniteStateMachine:
                                                 SupvisorsStates.SHUTTING_DOWN],
                     SupvisorsStates.CONCILIATION: [SupvisorsStates.OFF,
                                                    SupvisorsStates.SYNCHRONIZATION,
+                                                   SupvisorsStates.ELECTION,
                                                    SupvisorsStates.OPERATION,
                                                    SupvisorsStates.RESTARTING,
                                                    SupvisorsStates.SHUTTING_DOWN],
